@@ -123,6 +123,9 @@ def connect(path: StrPath, *, read_only: bool = False, **kwargs: Any) -> sqlite3
       which is required for the `ON DELETE CASCADE` cleanup of satellite rows.
       This is a per-connection setting (not stored in the database file),
       so it must be set on every connection.
+    - `LIKE` is made case sensitive, so that the prefix predicates of `prefix_clause()`
+      never select a label that differs from the prefix in letter case.
+      This is a per-connection setting too.
     - The auto_vacuum mode is set to INCREMENTAL to allow incremental vacuuming of the database.
     - The journal mode is set to WAL (Write-Ahead Logging) to allow concurrent reads and writes.
     - The synchronous mode is set to OFF to improve performance,
@@ -150,6 +153,9 @@ def connect(path: StrPath, *, read_only: bool = False, **kwargs: Any) -> sqlite3
     con = sqlite3.connect(path, **kwargs)
     con.isolation_level = None
     con.execute("PRAGMA foreign_keys = ON")
+    # `prefix_clause()` selects labels under a directory with `LIKE`,
+    # which must compare byte for byte: by default SQLite folds ASCII case in `LIKE`.
+    con.execute("PRAGMA case_sensitive_like = ON")
     if not read_only:
         # The auto_vacuum pragma must come first.
         # As of SQLite 3.51, setting the journal mode of a new database writes its header,
